@@ -1143,6 +1143,11 @@ class CircuitDAG(CircuitBase):
         :return: nothing
         :rtype: None
         """
+
+        def is_one_qubit_gate(dag_node):
+            # only gates can be merged into a wrapper; a Z measurement carries the "one-qubit" label as well
+            return isinstance(self.dag.nodes[dag_node]["op"], ops.OneQubitOperationBase)
+
         for node in self.node_dict["Output"]:
             # traverse the circuit DAG in the reversed order
             reg_type = self.dag.nodes[node]["op"].reg_type
@@ -1158,7 +1163,7 @@ class CircuitDAG(CircuitBase):
                 edge = self.edge_from_reg(in_edges, f"{reg_type}{register}")
                 next_node = edge[0]
 
-                if node in self.node_dict["one-qubit"]:
+                if is_one_qubit_gate(node):
                     node_info = self.dag.nodes[node]
                     op = node_info["op"]
 
@@ -1167,7 +1172,7 @@ class CircuitDAG(CircuitBase):
                     else:
                         gate_list.append(op.__class__)
                     self.remove_op(node)
-                if next_node not in self.node_dict["one-qubit"] and gate_list:
+                if not is_one_qubit_gate(next_node) and gate_list:
                     # insert new op here
                     out_edges = self.dag.out_edges(nbunch=next_node, keys=True)
                     insert_edge = self.edge_from_reg(out_edges, f"{reg_type}{register}")
